@@ -52,7 +52,18 @@ def gen_case(rng, nmax=40, estimators=ESTIMATORS, binnings=BINNINGS, allow_spars
     binf = str(rng.choice(binnings))
     n_lags = int(rng.integers(1, 13))
     # maxlag forms
-    form = str(rng.choice(['none', 'ratio', 'abs_below', 'abs_at', 'abs_above', 'median', 'mean']))
+    form = str(rng.choice(['none', 'ratio', 'abs_below', 'abs_at', 'abs_above', 'median', 'mean', 'abs_one']))
+    if form == 'abs_one':
+        # maxlag exactly 1 is the boundary between "ratio of the largest distance" (< 1) and "absolute"
+        # (>= 1): rescale so that 1 lies well inside the distance range, dense storage
+        if allow_sparse and dmax > 0:
+            coords = coords * (float(rng.uniform(3, 8)) / dmax)
+            kind = 'scaled'          # no longer integer coordinates: not an exact lattice
+            d = brute_dists(coords, metric)
+            dmax = float(d.max())
+            want_sparse = False
+        else:
+            form = 'none'
     if want_sparse:
         form = str(rng.choice(['abs_below', 'abs_below', 'abs_at', 'abs_above']))
     uniq = np.unique(d[d > 0])
@@ -73,6 +84,8 @@ def gen_case(rng, nmax=40, estimators=ESTIMATORS, binnings=BINNINGS, allow_spars
         maxlag = dmax if float(dmax).is_integer() else float(dmax * (1 + 1e-9))
     elif form == 'abs_above':
         maxlag = float(dmax * 1.5 + 1)
+    elif form == 'abs_one':
+        maxlag = 1.0 if rng.random() < 0.5 else 1
     else:
         maxlag = form
     if isinstance(maxlag, float) and maxlag >= 1 and not allow_sparse:
@@ -82,7 +95,7 @@ def gen_case(rng, nmax=40, estimators=ESTIMATORS, binnings=BINNINGS, allow_spars
         maxlag = None
         form = 'none'
     storage = 'raw'
-    if rng.random() < 0.3 and not want_sparse:
+    if (rng.random() < 0.3 and not want_sparse) or form == 'abs_one':
         storage = 'ms'       # pre-built dense MetricSpace
     kw = dict(estimator=est, bin_func=binf, n_lags=n_lags, maxlag=maxlag, dist_func=metric)
     if allow_custom and not want_sparse and rng.random() < 0.15:
